@@ -232,7 +232,7 @@ MergeMaps(m, ks, vs) == IF ks = <<>> THEN m ELSE MergeMaps(MapPut(m, Head(ks), H
 KnownTests == {"defined", "empty", "null", "none", "even", "odd", "iterable", "divisibleby", "sameas", "st", "stx"}
 NamedSpyFilters == [sfz |-> "f1", sfa |-> "a1"]
 BuiltinFilters == {"upper", "lower", "trim", "capitalize", "length", "first", "last", "reverse",
-                   "sort", "join", "default", "keys", "merge", "slice", "abs", "escape", "e", "split", "vdump"}
+                   "sort", "join", "default", "keys", "merge", "slice", "abs", "escape", "e", "split", "vdump", "round"}
 
 ApplyBuiltin(f, v, args, calls) ==
     CASE f = "upper" /\ v.t = "str" /\ args = <<>> -> ROk(VS(Upper(v.s)), calls)
@@ -258,8 +258,8 @@ ApplyBuiltin(f, v, args, calls) ==
             ROk(VS(JoinTexts(v.xs, IF args = <<>> THEN <<>> ELSE args[1].s)), calls)
       [] f = "default" /\ Len(args) = 1 -> ROk(IF IsEmptyVal(v) THEN args[1] ELSE v, calls)
       [] f = "keys" /\ args = <<>> /\ v.t = "map" -> ROk(VL(v.ks), calls)
-      [] f = "merge" /\ Len(args) = 1 /\ v.t = "list" /\ args[1].t = "list" ->
-            ROk(VL(v.xs \o args[1].xs), calls)
+      [] f = "merge" /\ Len(args) >= 1 /\ v.t = "list" /\ (\A i \in 1..Len(args) : args[i].t = "list") ->
+            ROk(VL(v.xs \o Flatten([i \in 1..Len(args) |-> args[i].xs])), calls)
       [] f = "merge" /\ Len(args) = 1 /\ v.t = "map" /\ args[1].t = "map" ->
             ROk(MergeMaps(VM(v.ks, v.vs), args[1].ks, args[1].vs), calls)
       [] f = "slice" /\ Len(args) \in {1, 2} /\ v.t \in {"list", "str"}
@@ -269,6 +269,16 @@ ApplyBuiltin(f, v, args, calls) ==
             IN IF v.t = "list" THEN ROk(VL(SliceSeq(v.xs, args[1].i, hasLen, ln)), calls)
                ELSE ROk(VS(SliceSeq(v.s, args[1].i, hasLen, ln)), calls)
       [] f = "abs" /\ args = <<>> /\ v.t = "int" -> ROk(VI(Abs(v.i)), calls)
+      [] f = "abs" /\ args = <<>> /\ v.t = "dec" -> ROk(VD(Abs(v.m), v.e), calls)
+      [] f = "round" /\ v.t \in {"dec", "int"} /\ Len(args) <= 2 /\ (Len(args) >= 1 => args[1].t = "int" /\ args[1].i \in -2..3)
+                     /\ (Len(args) = 2 => args[2].t = "str" /\ args[2].s \in {<<102, 108, 111, 111, 114>>, <<99, 101, 105, 108>>, <<99, 111, 109, 109, 111, 110>>}) ->
+            LET m == IF v.t = "int" THEN v.i ELSE v.m
+                e == IF v.t = "int" THEN 0 ELSE v.e
+                p == IF Len(args) >= 1 THEN args[1].i ELSE 0
+                method == IF Len(args) = 2 THEN (IF args[2].s = <<102, 108, 111, 111, 114>> THEN "floor"
+                                                 ELSE IF args[2].s = <<99, 101, 105, 108>> THEN "ceil" ELSE "common") ELSE "common"
+                r == RoundDec(m, e, p, method)
+            IN ROk(VD(r.m, r.e), calls)
       [] f = "split" /\ Len(args) = 1 /\ v.t = "str" /\ args[1].t = "str" /\ args[1].s # <<>> ->
             ROk(VL([i \in 1..Len(SplitText(v.s, args[1].s, <<>>)) |-> VS(SplitText(v.s, args[1].s, <<>>)[i])]), calls)
       [] f = "vdump" /\ args = <<>> -> ROk(VS(Dump(v)), calls)
